@@ -288,6 +288,8 @@ func dataOf(rtype int, body string) (data map[string]string, err error, panicked
 	return d, derr, false
 }
 
+func sc0() string { return "exe=\"/bin/x\" arch=c000003e syscall=2 " }
+
 var archCodes = map[string]uint32{"x86_64": 0xC000003E, "i386": 0x40000003, "aarch64": 0xC00000B7, "arm": 0x40000028, "ppc": 0x14,
 	"ppc64": 0x80000015, "ppc64le": 0xC0000015, "s390": 0x16, "s390x": 0x80000016}
 
@@ -296,6 +298,7 @@ func parseFieldsCmd(args []string) int {
 	out := fs.String("out", "", "trace ndjson")
 	seed := fs.Int64("seed", 1, "seed")
 	n := fs.Int("n", 2000, "random values per decoded field")
+	extras := fs.Bool("extras", false, "only the record-format rules beyond the listed properties (tags, AVC, LOGIN)")
 	fs.Parse(args)
 	rng := newRand(*seed, 12)
 	w := newNDWriter(*out)
@@ -306,6 +309,88 @@ func parseFieldsCmd(args []string) int {
 		trace++
 		return map[string]interface{}{"k": "field", "trace": trace, "how": how, "rtype": rtype, "key": key, "orig": []int{}, "enc": []int{},
 			"present": false, "got": []int{}, "want": []int{}, "panic": false, "err": "", "rule": ""}
+	}
+	if *extras {
+		keyChars := "abcdefghijklmnopqrstuvwxyzABCDEFGHIJKLMNOPQRSTUVWXYZ0123456789_-./:@%+ "
+		for i := 0; i < *n; i++ {
+			nk := 1 + rng.Intn(4)
+			keys := [][]int{}
+			var joined []byte
+			for k := 0; k < nk; k++ {
+				b := make([]byte, 1+rng.Intn(12))
+				for j := range b {
+					b[j] = keyChars[rng.Intn(len(keyChars))]
+				}
+				if b[0] == ' ' {
+					b[0] = 'k'
+				}
+				if b[len(b)-1] == ' ' {
+					b[len(b)-1] = 'k'
+				}
+				keys = append(keys, bytesOf(b))
+				if k > 0 {
+					joined = append(joined, 1)
+				}
+				joined = append(joined, b...)
+			}
+			enc := encodeUntrusted(joined)
+			body := sc0() + "success=yes exit=0 key=" + enc
+			trace++
+			rec := map[string]interface{}{"k": "field", "trace": trace, "how": "xtags", "rtype": 1300, "key": "key", "keys": keys,
+				"joined": bytesOf(joined), "enc": bytesOfS(enc), "tags": [][]int{}, "panic": false, "body": body}
+			func() {
+				defer func() {
+					if p := recover(); p != nil {
+						rec["panic"] = true
+					}
+				}()
+				m, err := auparse.Parse(1300, "audit(1490137971.011:50406): "+body)
+				if err == nil {
+					tg, _ := m.Tags()
+					out := [][]int{}
+					for _, t := range tg {
+						out = append(out, bytesOfS(t))
+					}
+					rec["tags"] = out
+				}
+			}()
+			w.write(rec)
+			stats["tags"]++
+		}
+		xd := func(rule string, rtype int, body, key, want string) {
+			d, _, pan := dataOf(rtype, body)
+			rec := base("xderived", rtype, key)
+			rec["rule"], rec["want"], rec["panic"], rec["body"] = rule, bytesOfS(want), pan, body
+			if g, ok := d[key]; ok {
+				rec["present"], rec["got"] = true, bytesOfS(g)
+			}
+			w.write(rec)
+			stats["xderived"]++
+		}
+		perms := []string{"read", "write", "open", "getattr", "execute", "search", "connectto", "name_bind"}
+		for i := 0; i < *n/4+20; i++ {
+			res := []string{"denied", "granted"}[rng.Intn(2)]
+			var ps []string
+			for k := 1 + rng.Intn(4); k > 0; k-- {
+				ps = append(ps, perms[rng.Intn(len(perms))])
+			}
+			body := fmt.Sprintf(`avc:  %s  { %s } for  pid=%d comm="x" name="y" dev="sda1" ino=2 scontext=a:b:c:s0 tcontext=d:e:f:s0 tclass=file permissive=0`,
+				res, strings.Join(ps, " "), 1+rng.Intn(30000))
+			xd("AVC result word -> seresult", 1400, body, "seresult", res)
+			xd("AVC permission list -> seperms, comma separated", 1400, body, "seperms", strings.Join(ps, ","))
+			xd("AVC target class stays", 1400, body, "tclass", "file")
+		}
+		for i := 0; i < 40; i++ {
+			a, b, c2, d2 := rng.Intn(5000), rng.Intn(5000), 1+rng.Intn(500), 1+rng.Intn(500)
+			body := fmt.Sprintf("pid=1 uid=0 old auid=%d new auid=%d old ses=%d new ses=%d res=1", a, b, c2, d2)
+			xd("LOGIN 'old auid' -> old_auid", 1006, body, "old_auid", strconv.Itoa(a))
+			xd("LOGIN 'new auid' -> new_auid", 1006, body, "new_auid", strconv.Itoa(b))
+			xd("LOGIN 'old ses' -> old_ses", 1006, body, "old_ses", strconv.Itoa(c2))
+			xd("LOGIN 'new ses' -> new_ses", 1006, body, "new_ses", strconv.Itoa(d2))
+		}
+		w.close()
+		printJSON(map[string]interface{}{"stats": stats})
+		return 0
 	}
 	// untrusted strings through every decoding path
 	for _, f := range c12Fields {
